@@ -10,8 +10,10 @@ This module is imported by both interpreters: pyvc imports are done lazily insid
 
 
 class Item:
-    def __init__(self, name, symbolic=None, native=None, fnkey=None):
+    def __init__(self, name, symbolic=None, native=None, fnkey=None, replay=None):
         self.name = name
+        self.replay = replay      # f(h, cex, obligation): runs the REAL function on the concretised counter-model of a failed
+                                  # obligation (native side); h.check(False, ..) records the failing input
         self.symbolic = symbolic or (lambda vc: None)
         self.native = native or []
         self.fnkey = fnkey
